@@ -118,10 +118,24 @@ def _parents(root) -> Dict[int, ast.AST]:
 
 
 def _body_insensitive(stmts: List[ast.stmt], is_set=None,
-                      only_subscripted=None) -> Optional[str]:
+                      only_subscripted=None,
+                      order_free_local=None) -> Optional[str]:
     """None if every statement is order-insensitive, else a description of
     the first order-sensitive statement."""
     for st in stmts:
+        # L.append(x) onto a local list that only ever escapes through
+        # sorted()/set()/len() (the loop form of `L = [x for x in a_set if
+        # ...]` followed by `return sorted(L)`)
+        if isinstance(st, ast.Expr) and isinstance(st.value, ast.Call) and \
+                isinstance(st.value.func, ast.Attribute) and \
+                st.value.func.attr in ('append', 'extend') and \
+                isinstance(st.value.func.value, ast.Name) and \
+                order_free_local is not None and \
+                order_free_local(st.value.func.value.id) and \
+                not any(isinstance(x, ast.Call) and call_name(x) not in (
+                    'get', 'len', 'tuple', 'get_attr_value')
+                    for a in st.value.args for x in ast.walk(a)):
+            continue
         # d[k] = <call-free value> into a mapping that is only ever
         # subscripted (the loop form of dict((k, v) for k in a_set))
         if isinstance(st, ast.Assign) and len(st.targets) == 1 and \
@@ -156,8 +170,10 @@ def _body_insensitive(stmts: List[ast.stmt], is_set=None,
                 continue
             return unparse(st).split('\n')[0]
         if isinstance(st, ast.If):
-            r = _body_insensitive(st.body, is_set, only_subscripted) or \
-                _body_insensitive(st.orelse, is_set, only_subscripted)
+            r = _body_insensitive(st.body, is_set, only_subscripted,
+                                  order_free_local) or \
+                _body_insensitive(st.orelse, is_set, only_subscripted,
+                                  order_free_local)
             if r:
                 return r
             continue
@@ -222,11 +238,31 @@ def analyse_function(ctx, kinds: SetKinds, f: Func) -> List[Site]:
                 return False
         return True
 
+    def order_free_local(name):
+        if name in f.params:
+            return False
+        for u in walk_no_nested(f.node, include_lambda=True):
+            if isinstance(u, ast.Name) and u.id == name and \
+                    isinstance(u.ctx, ast.Load):
+                up = parents.get(id(u))
+                if isinstance(up, ast.Attribute) and \
+                        up.attr in ('append', 'extend'):
+                    continue
+                if isinstance(up, ast.Call) and isinstance(
+                        up.func, ast.Name) and \
+                        up.func.id in ORDER_FREE_CONSUMERS:
+                    continue
+                if isinstance(up, ast.Compare):
+                    continue
+                return False
+        return True
+
     for n in walk_no_nested(f.node, include_lambda=True):
         if isinstance(n, ast.For):
             if _is_sorted_call(n.iter) or not is_set(n.iter):
                 continue
-            why = _body_insensitive(n.body, is_set, only_subscripted)
+            why = _body_insensitive(n.body, is_set, only_subscripted,
+                                    order_free_local)
             if why is None:
                 sites.append(Site(f, n, n.iter, 'insensitive',
                                   'loop body only updates sets / asserts'))
